@@ -101,6 +101,7 @@ class Interp:
     def __init__(self, ctx, models=None):
         self.ctx = ctx
         from . import models as _m
+        from . import models_jax  # noqa: F401  (registers jax models)
 
         self.models = dict(_m.MODELS)
         if models:
